@@ -32,7 +32,18 @@ type lmtpCase struct {
 	Mode    string           `json:"mode"`    // data bdat1 bdat2 bdatfail plain-data plain-bdat
 }
 
-func addrOf(a string) string { return a + "@x.test" }
+// the two abstract addresses a, b of Lmtp.tla are rendered in several ways:
+// plainly different, and different only in the case of a letter (mailbox
+// names are case-sensitive: RFC 5321 section 2.4)
+var addrScheme = [][2]string{{"a@x.test", "b@x.test"}, {"Bob@x.test", "bob@x.test"}, {"carol@x.test", "caroL@x.test"}, {"a@x.test", "b@x.test"}}
+
+func addrOfIdx(a string, idx int) string {
+	sc := addrScheme[idx%len(addrScheme)]
+	if a == "a" {
+		return sc[0]
+	}
+	return sc[1]
+}
 
 func runLmtpCase(c *lmtpCase, idx int) (string, error) {
 	plain := strings.HasPrefix(c.Mode, "plain")
@@ -54,7 +65,7 @@ func runLmtpCase(c *lmtpCase, idx int) (string, error) {
 			st = &smtp.SMTPError{Code: 550, EnhancedCode: smtp.EnhancedCode{5, 1, 1}, Message: fmt.Sprintf("marker-%d", i+1)}
 			c.Sets[cl.Addr] = append(c.Sets[cl.Addr], i+1)
 		}
-		plan.Status = append(plan.Status, rec.StatusOp{Addr: addrOf(cl.Addr), Err: st, After: cl.After})
+		plan.Status = append(plan.Status, rec.StatusOp{Addr: addrOfIdx(cl.Addr, idx), Err: st, After: cl.After})
 	}
 	switch c.Outcome {
 	case "err":
@@ -75,7 +86,7 @@ func runLmtpCase(c *lmtpCase, idx int) (string, error) {
 	srv.BE.Unlock()
 	pre := "LHLO c13.test\r\nMAIL FROM:<s@x.test>\r\n"
 	for _, r := range c.Rcpts {
-		pre += "RCPT TO:<" + addrOf(r) + ">\r\n"
+		pre += "RCPT TO:<" + addrOfIdx(r, idx) + ">\r\n"
 	}
 	out, _, err := cn.Step([]byte(pre))
 	if err != nil {
@@ -133,7 +144,7 @@ func runLmtpCase(c *lmtpCase, idx int) (string, error) {
 	c.Emitted = []int{}
 	for i, r := range finals {
 		if i < len(c.Rcpts) {
-			want := "<" + addrOf(c.Rcpts[i]) + "> "
+			want := "<" + addrOfIdx(c.Rcpts[i], idx) + "> "
 			if !strings.HasPrefix(r.Text(), want) {
 				return fmt.Sprintf("reply %d does not name %s: %q", i, want, r.Text()), nil
 			}
